@@ -39,7 +39,7 @@ CANON = style(indent=4, mainmenu_indent=True, nest_indent=True, blank_between=Tr
 def _cases(draw):
     d = gen.D(draw)
     tree = gen._Builder(d, CFG).build()
-    st_ = {"cont": d.chance(30), "trailing": d.weighted([(7, 0), (2, 3), (1, 5)]), "hash_comments": d.chance(25), "prop_order": d.int(0, 300) if d.chance(30) else 0}
+    st_ = {"cont": d.chance(30), "cont_multi": d.chance(50), "trailing": d.weighted([(7, 0), (2, 3), (1, 5)]), "hash_comments": d.chance(25), "prop_order": d.int(0, 300) if d.chance(30) else 0}
     mangle = None
     if d.chance(65):
         mangle = {
